@@ -21,6 +21,8 @@ import (
 // c04Voucher: a local token shaped like an IBC voucher denom with upper-case hex digits.
 const c04Voucher = "ibc/27394FB092D2ECCD56123C74F36E4C1F926001CEADA9CA97EA622B25F41E5EB2"
 
+var c04SweepDomains = []uint32{6, 7, 8, 9, 10, 11, 12, 13, 16, 31, 32, 33, 63, 64, 65, 255, 256, 65535, 65536, 1 << 31}
+
 var c04RecipientClasses = []string{"plain", "high-bytes-nonzero", "first20-differ", "self-submitter", "low20-zero", "all-zero", "module-account"}
 
 func c04Recipient(cls string, i int) []byte {
@@ -64,6 +66,10 @@ func runC04(rc *RunCtx) {
 				ct.TokenPair{RemoteDomain: 5, RemoteToken: Token(1), LocalToken: c04Voucher},
 				ct.TokenPair{RemoteDomain: 5, RemoteToken: Token(2), LocalToken: "factory/Noble1Creator/UTOKEN"})
 			gs.PerMessageBurnLimitList = append(gs.PerMessageBurnLimitList, ct.PerMessageBurnLimit{Denom: "uusdc", Amount: sdkInt(3)}) // outbound limit only
+			for _, d := range c04SweepDomains {                                                                                        // source domains outside the usual handful, for the source x amount block
+				gs.TokenMessengerList = append(gs.TokenMessengerList, ct.RemoteTokenMessenger{DomainId: d, Address: Messenger(d, 0)})
+				gs.TokenPairList = append(gs.TokenPairList, ct.TokenPair{RemoteDomain: d, RemoteToken: Token(0), LocalToken: "uusdc"})
+			}
 		})
 		if err != nil {
 			rc.Cov.Inconclusive(err.Error())
@@ -125,6 +131,22 @@ func runC04(rc *RunCtx) {
 				raw := in.Bytes()
 				r := e.Exec(Tx{Msgs: msgs1(&ct.MsgReceiveMessage{From: Acct(UserIx), Message: raw, Attestation: e.Attest(raw, 0)}), Note: "C04 burn-shaped message to a near-module recipient"})
 				rc.Cov.Cell("C04_near_module", fmt.Sprintf("ok=%v/mints=%d", r.OK, len(r.Deps)))
+			}
+			// source domain x amount: what is minted does not depend on which domain the burn message comes from
+			if rep == 0 {
+				for di, d := range c04SweepDomains {
+					for ai, ac := range AmountClasses {
+						if !double && ac.V.BitLen() > 64 {
+							continue
+						}
+						nonce++
+						in := &InMsg{Version: 0, Src: d, Dst: 4, Nonce: nonce, Sender: Messenger(d, 0), Recipient: modulePadded, Caller: make([]byte, 32),
+							Body: BurnBody(0, Token(0), ref.Pad32(AcctBytes((di+ai)%NAccounts)), ac.V, Structured32(byte(0x60+ai)))}
+						raw := in.Bytes()
+						r := e.Exec(Tx{Msgs: msgs1(&ct.MsgReceiveMessage{From: Acct(UserIx), Message: raw, Attestation: e.Attest(raw, ai%3)}), Note: fmt.Sprintf("C04 source x amount: domain %d, amount %s", d, ac.Name)})
+						rc.Cov.Cell("C04_source_amount", fmt.Sprintf("%s/%v", ac.Name, r.OK))
+					}
+				}
 			}
 			// conservation so far
 			c04Conservation(e)
